@@ -43,6 +43,68 @@ def find(ctx, f):
     return res
 
 
+def _same(f, a, b):
+    a = ex.skip(f, a)
+    b = ex.skip(f, b)
+    ea, eb = f.exprs[a], f.exprs[b]
+    if ea["k"] != eb["k"]:
+        return False
+    for k in ("op", "name", "member", "callee", "v", "ck", "s"):
+        if ea.get(k) != eb.get(k):
+            return False
+    ca, cb = ea.get("c", []) or [], eb.get("c", []) or []
+    if len(ca) != len(cb):
+        return False
+    return all(_same(f, x, y) for x, y in zip(ca, cb))
+
+
+def find_dup(f):
+    """Binary operators whose two operands are the same non-constant, side-effect free expression
+    (`unpar (*ref) | unpar (*ref)`, `a->n == a->n`): one of them was meant to be something else."""
+    res = []
+    pos = flow.elem_pos(f)
+    for i, e in enumerate(f.exprs):
+        if e["k"] != "bin" or e["op"] not in ("|", "&", "^", "-", "==", "!=", "<", ">", "<=", ">=", "&&", "||", "/", "%"):
+            continue
+        if pos.get(i) is None or e.get("mac") or "it" not in e and e["op"] not in ("==", "!=", "<", ">", "<=", ">=", "&&", "||"):
+            continue
+        a, b = e["c"]
+        ea = f.exprs[ex.skip(f, a)]
+        if "v" in ea or ea["k"] in ("float", "flt", "str") or "float" in ea.get("t", "") or "double" in ea.get("t", ""):
+            continue
+        if not any(f.exprs[n]["k"] in ("ref", "mem", "idx", "call") for n in ex.walk(f, a)):
+            continue
+        if any(f.exprs[n]["k"] == "asg" or (f.exprs[n]["k"] == "un" and f.exprs[n]["op"] in ("++", "--")) for n in ex.walk(f, a)):
+            continue
+        if _same(f, a, b):
+            res.append(i)
+    return res
+
+
+def find_stale_copy(f):
+    """`x->a = CONST; y = x->a;` as consecutive statements: the copy takes the constant, not the value
+    the field held (two statements in the wrong order)."""
+    res = []
+    for bid in f.rpo():
+        evs = flow.events(f, bid)
+        for k in range(1, len(evs)):
+            p, c = f.exprs[evs[k - 1]], f.exprs[evs[k]]
+            if not (p["k"] == "asg" and p["op"] == "=" and c["k"] == "asg" and c["op"] == "="):
+                continue
+            pl = ex.skip(f, p["c"][0])
+            if f.exprs[pl]["k"] != "mem" or ex.const(f, p["c"][1]) is None:
+                continue
+            cr = ex.skip(f, c["c"][1])
+            e = f.exprs[cr]
+            while e["k"] == "cast":
+                cr = ex.skip(f, e["c"][0])
+                e = f.exprs[cr]
+            pth = ex.path(f, pl)
+            if e["k"] == "mem" and pth and ex.path(f, cr) == pth:
+                res.append((evs[k], evs[k - 1]))
+    return res
+
+
 def units_of(pid):
     """The built units a property is anchored in (anchors.files of properties.jsonl)."""
     import json
@@ -65,6 +127,12 @@ def sweep(ctx, run, units):
     hit = {f.name for f in P2.funcs if find(c2, f)}
     if hit != {"swapped_update"}:
         raise AnalysisBroken("RF-VAC positive example: expected a report in swapped_update only, got %s" % sorted(hit))
+    hit = {f.name for f in P2.funcs if find_dup(f)}
+    if hit != {"dup_operand"}:
+        raise AnalysisBroken("RF-DUP positive example: expected a report in dup_operand only, got %s" % sorted(hit))
+    hit = {f.name for f in P2.funcs if find_stale_copy(f)}
+    if hit != {"copy_after_reset"}:
+        raise AnalysisBroken("RF-VAC positive example: expected a stale copy in copy_after_reset only, got %s" % sorted(hit))
     n_f = 0
     n = 0
     for f in ctx.prog.funcs:
@@ -81,6 +149,23 @@ def sweep(ctx, run, units):
                           "`%s` has no effect: its right-hand side is %d at this point on every path - the operand was overwritten "
                           "just before it is used (two statements in the wrong order?), so the update it was meant to apply is lost"
                           % (ex.pretty(f, i)[:80], v), ex.loc(f, i), witness={"function": f.name, "statement": ex.pretty(f, i)})
+    n_dup = 0
+    for f in ctx.prog.funcs:
+        if f.unit not in units or f.file.endswith(".h"):
+            continue
+        for i in find_dup(f):
+            n += 1
+            n_dup += 1
+            run.touch(f)
+            run.violation("RF-DUP", "RF-DUP:%s:%s" % (f.name, f.exprs[i]["op"]), "`%s` has the same expression on both sides of `%s`: one "
+                          "operand was meant to be something else (the other value is never looked at)"
+                          % (ex.pretty(f, i)[:90], f.exprs[i]["op"]), ex.loc(f, i), witness={"function": f.name, "expr": ex.pretty(f, i)})
+        for i, j in find_stale_copy(f):
+            n += 1
+            run.touch(f)
+            run.violation("RF-VAC", "RF-VAC:%s:stale-copy" % f.name, "`%s` copies a field that the statement before it (`%s`) has just set "
+                          "to a constant: the value the field held is lost (two statements in the wrong order?)"
+                          % (ex.pretty(f, i)[:70], ex.pretty(f, j)[:50]), ex.loc(f, i), witness={"function": f.name})
     if not n:
         run.holds("RF-VAC", "RF-VAC:%s" % ",".join(u.split("/")[-1] for u in units)[:80],
                   "%d functions with compound assignments: none updates with an operand the function has just overwritten by the "
